@@ -725,4 +725,12 @@ theorem linear_index_not_narrowed (n : Nat) (idx : List Nat) (rr rc : Nat) (c k 
     have : 2 ^ w ≤ k * 2 ^ w := Nat.le_mul_of_pos_left _ hk
     omega
 
+/-- `Q` is a covariance for every `T ≥ 0`, `q ≥ 0` (positive semidefinite, also at the boundary
+    `T = 0` or `q = 0` where it is singular). -/
+theorem wna_Q_posSemidef (dim : Dim) {T q : ℝ} (hT : 0 ≤ T) (hq : 0 ≤ q) : (toM (wnaQ dim T q)).PosSemidef := by
+  rw [toM_wnaQ]
+  refine Matrix.PosSemidef.smul ?_ hq
+  rw [Matrix.reindex_apply]
+  exact (blockDiagonal_posSemidef fun _ => Q2_posSemidef hT).submatrix _
+
 end BFL.Models
